@@ -118,6 +118,23 @@ class OneSidedEq:
     __hash__ = None  # type: ignore[assignment]
 
 
+class LtOnly:
+    """Ordered by ``<`` alone (the one operator sorting needs): no ``__eq__`` of its own, so two instances of equal
+    rank are neither smaller than each other nor ``==`` - a strict weak order, in which "the first of several equal
+    ones" and stability are well defined."""
+
+    def __init__(self, k: Any, tag: Any = None):
+        self.k, self.tag = k, tag
+
+    def __lt__(self, other: Any) -> Any:
+        if not isinstance(other, LtOnly):
+            return NotImplemented
+        return self.k < other.k
+
+    def __repr__(self) -> str:
+        return f"LtOnly({self.k!r}, {self.tag!r})"
+
+
 class Opaque:
     """A payload the tools have no business looking INTO: its truth value, equality, hash and length all raise.
     Tools that merely pass items along (zip, enumerate, islice, batched, chain, tee, ...) never notice; the few that
@@ -160,6 +177,8 @@ def decode(v: Any) -> Any:
             return AwaitablePayload(v[1])
         if tag == "Op":
             return Opaque(v[1])
+        if tag == "Lt":
+            return LtOnly(v[1], v[2] if len(v) > 2 else None)
         if tag == "Eq":
             return OneSidedEq(v[1], v[2])
         if tag == "X":
